@@ -226,6 +226,22 @@ let () =
      | CreateFlat.FErr CreateFlat.FEqualMode -> "(error equal-mode)"
      | CreateFlat.FErr CreateFlat.FArith -> "(error arith)")
     | _ -> "!args");
+  (* (inputok INPUT) -> input_ok  (windows exclusions sustains strides consistent): Front/CreateOk.v [input_ok] on the
+     recorded _create arguments, and which of its conditions hold *)
+  register "inputok" (function [i] ->
+    let ci = create_input_of_sexp i in
+    let crs = CreateFlat.st_crossings ci in
+    let fb0 = CreateOk.in_flat ci in
+    let len l = Stdlib.List.length l in
+    let windows = Stdlib.List.for_all CreateOk.window_ok ci.CreateFlat.ci_design in
+    let excl = len ci.CreateFlat.ci_exclusions = len crs
+               && Stdlib.List.for_all2 (fun c e -> int_of_nat e < int_of_nat (Trials.crossing_size_no_excl fb0 c)) crs ci.CreateFlat.ci_exclusions in
+    let sus = len crs <= len ci.CreateFlat.ci_sustains && Stdlib.List.for_all (fun n -> int_of_nat n > 0) ci.CreateFlat.ci_sustains in
+    let strides = Stdlib.List.for_all (Stdlib.List.for_all (fun f -> int_of_nat (Trials.fstride fb0 f) = 1)) crs in
+    let cons = CreateOk.sustains_consistent (CreateOk.paired ci) in
+    show_bool (CreateOk.input_ok ci) ^ " (" ^ show_bool windows ^ " " ^ show_bool excl ^ " " ^ show_bool sus ^ " "
+    ^ show_bool strides ^ " " ^ show_bool cons ^ ")"
+    | _ -> "!args");
   register "trreq" (function [f; fi; size] ->
     show_opt show_nat (Trials.trials_required (Wire_flat.flat_of_sexp f) (nat_of_sexp fi) (nat_of_sexp size)) | _ -> "!args");
   (* (create BEXP) -> (ok design crossings sustains weights constraints rcc mode alignment normcrossings addsustain sustainmap) | (error E) *)
